@@ -19,7 +19,8 @@ use altrios_core::si;
 use altrios_core::uc;
 use serde::{Deserialize, Serialize};
 
-const G: f64 = 9.80665;
+/// the library's documented gravity constant (uc::ACC_GRAV, WGS-84 at the geographic centre of the contiguous US)
+const G: f64 = 9.801_548_494_963_14;
 
 #[derive(Serialize, Deserialize, Clone, Debug, PartialEq)]
 pub enum Target {
